@@ -470,7 +470,12 @@ var illFormed = [][]byte{
 	{0x80}, {0xbf}, {0xc3}, {0xe2, 0x82}, {0xf0, 0x9f, 0x98}, {0xc0, 0xaf}, {0xc1, 0x81}, {0xe0, 0x80, 0xaf}, {0xe0, 0x9f, 0xbf},
 	{0xf0, 0x80, 0x80, 0xaf}, {0xf0, 0x8f, 0xbf, 0xbf}, {0xed, 0xa0, 0x80}, {0xed, 0xbf, 0xbf}, {0xf5, 0x80, 0x80, 0x80}, {0xf4, 0x90, 0x80, 0x80},
 	{0xff}, {0xfe}, {0xf8, 0x88, 0x80, 0x80, 0x80},
+	// lone bytes that are white space or controls when (mis)read as Latin-1 code points
+	{0x85}, {0xa0}, {0x8a}, {0x9f},
 }
+
+// single bytes also injected right AFTER a white-space character (blank, tab, line feed, carriage return)
+var illAfterSpace = [][]byte{{0x85}, {0xa0}, {0x80}, {0xff}, {0xc2}}
 
 func cmdTotal(args []string) int {
 	fs := flag.NewFlagSet("total", flag.ExitOnError)
@@ -675,6 +680,26 @@ func cmdTotal(args []string) int {
 			}
 		}
 	}
+	// big files cut just behind the block sizes a chunked reader may use; the text is such that stale bytes of an earlier
+	// block (a shifted copy of the same pattern) could close the document
+	if st.nviol() == 0 {
+		full := "{\"k\":\"" + strings.Repeat("ab\\\"}", 30000) + "\"}"
+	cutLoop:
+		for _, chunk := range []int{4096, 8192, 16384, 32768, 65536, 131072} {
+			for delta := 1; delta <= 6; delta++ {
+				if chunk+delta >= len(full) {
+					continue
+				}
+				if err := checkFileEq(cc, full[:chunk+delta]); err != nil {
+					report("file", fmt.Sprintf("the first %d bytes of a %d-byte document %q...", chunk+delta, len(full), full[:40]), err)
+					break cutLoop
+				}
+			}
+		}
+		if err := checkFileEq(cc, full); err != nil && st.nviol() == 0 {
+			report("file", fmt.Sprintf("%d-byte document %q...", len(full), full[:40]), err)
+		}
+	}
 	// missing / unreadable paths
 	if st.nviol() == 0 {
 		for _, p := range []string{filepath.Join(tmpdir, "does-not-exist.json"), tmpdir, ""} {
@@ -717,16 +742,16 @@ func checkFileEq(cc *cutCounters, content string) error {
 		fo, ferr := at.ParseFile(p)
 		oo, oerr := at.ParseObject(content)
 		if (fo == nil) != (oo == nil) || (ferr == nil) != (oerr == nil) {
-			return fmt.Errorf("ParseFile and ParseObject disagree on %q: (%v,%v) vs (%v,%v)", content, fo != nil, ferr, oo != nil, oerr)
+			return fmt.Errorf("ParseFile and ParseObject disagree on %s: (%v,%v) vs (%v,%v)", clip(content), fo != nil, ferr, oo != nil, oerr)
 		}
 		if fo == nil && ferr == nil {
-			return fmt.Errorf("ParseFile returned (nil, nil) for %q", content)
+			return fmt.Errorf("ParseFile returned (nil, nil) for %s", clip(content))
 		}
 		if ferr != nil && ferr.Error() != oerr.Error() {
-			return fmt.Errorf("ParseFile error %q differs from ParseObject error %q for %q", ferr, oerr, content)
+			return fmt.Errorf("ParseFile error %q differs from ParseObject error %q for %s", ferr, oerr, clip(content))
 		}
 		if fo != nil && (!fo.Equals(oo) || !oo.Equals(fo)) {
-			return fmt.Errorf("ParseFile result differs from ParseObject result for %q", content)
+			return fmt.Errorf("ParseFile result differs from ParseObject result for %s", clip(content))
 		}
 		return nil
 	})
@@ -773,6 +798,22 @@ func cutDocCheck(ct *jsonx.CTree, how int, cc *cutCounters) error {
 			}
 			if o.ok {
 				return fmt.Errorf("document with ill-formed UTF-8 accepted: %x inserted at byte %d of %q gives %s", bad, pos, text, o.text)
+			}
+		}
+		for wi, ws := range []string{" ", "\t", "\n", "\r\n ", "  "} {
+			if (pos+wi)%3 != 0 {
+				continue // a third of the (position, white space) pairs
+			}
+			for _, bad := range illAfterSpace {
+				mut := text[:pos] + ws + string(bad) + text[pos:]
+				o, err := callParser(entry, mut)
+				atomic.AddInt64(&cc.inj, 1)
+				if err != nil {
+					return fmt.Errorf("ill-formed UTF-8 %x after white space at %d of %q: %v", bad, pos, text, err)
+				}
+				if o.ok {
+					return fmt.Errorf("document with ill-formed UTF-8 accepted: white space %q and the lone byte %x inserted at byte %d of %q gives %s", ws, bad, pos, text, o.text)
+				}
 			}
 		}
 	}
